@@ -169,7 +169,7 @@ def _no_shared_objects(self, w, op):
                     raise Violation(self.prop, "no-shared-objects", "bundle-in-two-documents",
                                     {"operation": op, "documents": [prev, h],
                                      "bundle": observe._uri(b.identifier)}, {"op": op[0]})
-                if b.document is not c:
+                if b.document is not None and b.document is not c and w.handle_of(b.document) is not None:
                     raise Violation(self.prop, "no-shared-objects", "bundle-document-pointer",
                                     {"operation": op, "listed_by": h,
                                      "bundle": observe._uri(b.identifier)}, {"op": op[0]})
@@ -179,7 +179,8 @@ def _no_shared_objects(self, w, op):
                 raise Violation(self.prop, "no-shared-objects", "record-in-two-containers",
                                 {"operation": op, "containers": [prev, h],
                                  "record": repr(observe.rec_obs(r))}, {"op": op[0]})
-            if r.bundle is not c:
+            if r.bundle is not None and r.bundle is not c and w.handle_of(r.bundle) is not None:
+                # a record listed here that resolves its names through *another* live container
                 raise Violation(self.prop, "no-shared-objects", "record-bundle-pointer",
                                 {"operation": op, "container": h,
                                  "record": repr(observe.rec_obs(r))}, {"op": op[0]})
